@@ -23,7 +23,7 @@ def describe(tier):
                 "format_constraint_evaluation (4 FCs with distinct answers and messages), H3 evaluate_ahb_expression_tree (2-3 modal mark parts "
                 "incl. a bare indicator; mixed plain/awaitable list), H4 expand_packages (4 occurrences, two of the same key; and a missing "
                 "package), H5 2-3 concurrent evaluations as tasks each with its own context-local data (also through the library's "
-                "ContentEvaluationResult-based evaluators), H6 is_valid_expression with a ContextVar setter (valid and invalid expression), H7 "
+                "ContentEvaluationResult-based evaluators), H6 is_valid_expression with a ContextVar setter (valid and invalid expression), H9 = H1/H3 with a synchronous hints provider, H7 "
                 "every assignment of the evaluator kinds {sync, async-immediate, async-yield-once, async-yield-twice} to 3 keys. For every "
                 "harness ALL completion orders of the pending awaitables at quiescent points are enumerated depth-first on a virtual event "
                 f"loop (H3-large / H6-large: <= {b['large_order_bound']} deviations from oldest-first), plus <= {b['early']} early/batched "
@@ -298,7 +298,24 @@ def h8(params, zero):
     return factory
 
 
-HARNESS = {"H1": h1, "H2": h2, "H3": h3, "H4": h4, "H5": h5, "H6": h6, "H7": h7, "H8": h8}
+def h9(params, zero):
+    """H1 / H3 with a hints provider whose get_hint_text is synchronous (separate code path in HintsProvider.get_hints)"""
+    inner = (h1 if params["base"] == "H1" else h3)(params, zero)
+
+    def factory(sched):
+        async def main():
+            _I.setup(sync_hints=True)
+            try:
+                return await inner(sched)
+            finally:
+                _I.setup()
+
+        return main()
+
+    return factory
+
+
+HARNESS = {"H1": h1, "H2": h2, "H3": h3, "H4": h4, "H5": h5, "H6": h6, "H7": h7, "H8": h8, "H9": h9}
 
 
 def plan(tier, seed):
@@ -331,6 +348,11 @@ def plan(tier, seed):
         add("H7", {"kinds": list(kinds)})
     for perm in (0, 3):
         add("H8", {"n": 2, "perm": perm})
+    for perm in (0, 2, 5):
+        for e in range(3):
+            add("H9", {"base": "H1", "perm": perm, "expr": e})
+        for e in (0, 1):
+            add("H9", {"base": "H3", "perm": perm, "expr": e})
     return items
 
 
